@@ -312,3 +312,55 @@ def _copy(ex, args, kwargs, node):
   if hasattr(v, 'clone'):
     return v.clone()
   return v
+
+
+# ---------------------------------------------------------------------------
+# numpy / collections odds and ends used by the searches
+
+_LEN_ARR = z3.Function('len_Arr', sort_named('Arr'), z3.IntSort())
+
+
+@lib('numpy.random.normal',
+     'numpy.random.normal(loc_sequence): an array with one entry per element '
+     'of the argument (its values are unconstrained)')
+def _np_random_normal(ex, args, kwargs, node):
+  ctx = ex.ctx
+  v = args[0]
+  if isinstance(v, VRange):
+    n = z3.If(v.hi > v.lo, v.hi - v.lo, 0)
+  elif isinstance(v, VSeq):
+    n = v.length
+  else:
+    ex.unsupported(node, 'random.normal(%s)' % v.kind)
+  a = z3.Const(ctx.sym('rnd'), sort_named('Arr'))
+  ctx.assume(_LEN_ARR(a) == n)
+  return VOpaque(a, 'Arr')
+
+
+class VNamedTupleType(V):
+  kind = 'namedtupletype'
+
+  def __init__(self, tname, names):
+    self.tname = tname
+    self.names = names
+
+  def py_call(self, ex, args, kwargs, node):
+    items = list(args)
+    for n in self.names[len(items):]:
+      if n not in kwargs:
+        ex.safety(z3.BoolVal(False), 'TypeError', node,
+                  'missing namedtuple field %s' % n)
+        raise PathEnd('namedtuple')
+      items.append(kwargs[n])
+    if len(items) != len(self.names):
+      ex.safety(z3.BoolVal(False), 'TypeError', node, 'namedtuple arity')
+      raise PathEnd('namedtuple')
+    return VTuple(items, list(self.names), self.tname)
+
+
+@lib('collections.namedtuple', 'namedtuple(name, fields) builds a tuple type')
+def _namedtuple(ex, args, kwargs, node):
+  name, fields = args
+  if not (isinstance(name, VStr) and isinstance(fields, VTuple)):
+    ex.unsupported(node, 'namedtuple with non-literal fields')
+  return VNamedTupleType(name.s, [f.s for f in fields.items])
